@@ -2,7 +2,7 @@
    Artifact.v and judge every answer of the real Builder / Artifact.
 
    case   = L [A "artifact_roundtrip"; L [mode; L ops; A probe]; result]
-   result = ok [aux; raw manifest; checked manifest; by_kind; rows; A digest_of_"{}"; A times_check]
+   result = ok [aux; raw manifest; checked manifest; by_kind; rows; A digest_of_"{}"; A times_check; listing]
    aux_i  = [A blob_hex; A sha256 (computed by check.py with hashlib); I size (idem);
              canonical message tree; [[A rendered; I secs; I nanos]..]]
    The Section variables of the model are instantiated by tables read off the case:
@@ -294,6 +294,29 @@ Section Instance.
         end
     end.
 
+  (* get_instances / get_solutions: every layer of the kind in insertion order, each with ITS OWN
+     descriptor (annotations, media type) and its decoded message -- also when two layers hold the
+     same bytes.  (These accessors read the raw manifest: no artifact-type check.) *)
+  Definition expected_listing (a : artifact string string) (k : kind) : list (descriptor string * tree) :=
+    filter (fun dm => String.eqb (d_media (fst dm)) (media_type k))
+           (combine (a_layers a) (map (fun o : op string tree => o_msg o) mops)).
+  Fixpoint listing_agrees (es : list (descriptor string * tree)) (ts : list tree) : bool :=
+    match es, ts with
+    | [], [] => true
+    | (d, m) :: es', L [dt; mt] :: ts' => desc_agrees d dt && tree_eqb m mt && listing_agrees es' ts'
+    | _, _ => false
+    end.
+  Definition judge_listing (a : artifact string string) (k : kind) (obs : tree) : option tree :=
+    let clause := "get_" +++ kind_name k +++ "s (listing: own descriptor and message of every layer of the kind, in order)" in
+    match ok_payload obs with
+    | Some (L ls) =>
+        if listing_agrees (expected_listing a k) ls then None
+        else Some (disagree clause (L (map (fun dm => L [e_desc (fst dm); snd dm]) (expected_listing a k))))
+    | _ => if is_err obs || is_panic obs
+           then Some (disagree (clause +++ " must succeed") (L (map (fun dm => L [e_desc (fst dm); snd dm]) (expected_listing a k))))
+           else Some (badresult "listing shape")
+    end.
+
   Definition has_dup_blob : bool :=
     negb (Nat.eqb (List.length (nodup string_dec (map r_hex rops))) (List.length rops)).
   Definition has_cross_kind_dup : bool :=
@@ -312,7 +335,7 @@ Section Instance.
     ++ (if existsb (fun k => match m_get k a probe with Err ENotFound => true | _ => false end) all_kinds
         then ["unknown-digest-err"] else []).
 
-  Definition judge (ty : option string) (probe : string) (raw checked : tree) (by_kind rows : list tree) : tree :=
+  Definition judge (ty : option string) (probe : string) (raw checked : tree) (by_kind rows : list tree) (listing : tree) : tree :=
     let a := m_build ty in
     if negb tables_check then badresult "tables (digest/size/time) inconsistent"
     else if negb inj_check then badresult "sha256 collision between distinct stored blobs"
@@ -327,6 +350,10 @@ Section Instance.
                  [judge_by_kind a KInstance b1; judge_by_kind a KParametric b2;
                   judge_by_kind a KSolution b3; judge_by_kind a KSampleSet b4]
              | _ => [Some (badresult "by_kind shape")]
+             end)
+         ++ (match listing with
+             | L [li; ls] => [judge_listing a KInstance li; judge_listing a KSolution ls]
+             | _ => [Some (badresult "listing shape")]
              end)
          ++ [ if forallb (fun d => existsb (String.eqb d) seen) expected_digests then None
               else Some (badresult "not every stored digest was queried") ]
@@ -352,12 +379,12 @@ Definition run_C20 (case : tree) : tree :=
       | None => badcase "C20: mode"
       | Some ty =>
           match ok_payload res with
-          | Some (L [L aux; raw; checked; L by_kind; L rows; A empty_digest; A tcheck]) =>
+          | Some (L [L aux; raw; checked; L by_kind; L rows; A empty_digest; A tcheck; listing]) =>
               match d_rops ops aux with
               | Some rops =>
                   if negb (String.eqb tcheck "times-ok")
                   then disagree "RFC3339 annotation denotes the instant that was set" (A tcheck)
-                  else judge rops empty_digest ty probe raw checked by_kind rows
+                  else judge rops empty_digest ty probe raw checked by_kind rows listing
               | None => badcase "C20: add operations / aux"
               end
           | _ =>
